@@ -1473,8 +1473,11 @@ impl<T: Transport, Env: UtpEnvironment> VirtualSocket<T, Env> {
 
     fn transition_to_fin_wait_1(&mut self) {
         log_if_changed!(Level::DEBUG, "state", self, |s| s.state, |s| {
-            if s.state.transition_to_fin_wait_1(s.seq_nr) {
-                s.seq_nr += 1;
+            // seq_nr lags behind after an RTO rewind until everything was resent (or ACKed), so
+            // number the FIN after the last queued segment instead.
+            let our_fin = s.user_tx_segments.next_seq_nr();
+            if s.state.transition_to_fin_wait_1(our_fin) {
+                s.seq_nr = our_fin + 1;
             }
         });
     }
